@@ -49,6 +49,18 @@ VOLUMES = [(1, 4097), (8, 4096), (8, 4097), (3, 8193), (5, 20000), (8, 70000)]
 PRIORS = ("written_more", "foreign_more", "written_less", "foreign_same")
 
 
+# what the user's element class says about equality. A component only has to provide read() and write(); __eq__ is optional, and
+# what the framework does with a fault must not depend on it: "identity" = the class defines __eq__ as `is`; "inherited" = the class
+# defines read/write only and inherits the base class's __eq__ (Register: compares data; Block / Section: the base method raises
+# NotImplementedError); "uncomparable" = the class defines an __eq__ that raises (what `self.data == o.data` on array-valued data
+# does: ValueError, the truth value is ambiguous). One kind per case, in rotation
+EQ_KINDS = ("identity", "inherited", "uncomparable")
+
+
+class Uncomparable(ValueError):
+    pass
+
+
 def prior_of(kind, case):
     """the (who, amount) history of the given kind for the case"""
     n = len(case["behs"])
@@ -122,7 +134,7 @@ class Recorder:
         return False
 
 
-def make_elements(fam, binary, behs, excs, mode):
+def make_elements(fam, binary, behs, excs, mode, eq=None):
     """component classes / instances whose i-th read or write performs behaviour i"""
     F = families.get(fam)
     Base = F["Base"]
@@ -159,6 +171,18 @@ def make_elements(fam, binary, behs, excs, mode):
         ns = {"read": read, "write": write, "__slots__": [], "__eq__": lambda s, o: s is o, "__hash__": None}
         if fam == "block":
             ns["BEGIN_PATTERN"] = b"R" if binary else "R"
+    if eq is not None:
+        # (eq None: replay files written before the equality kind was part of the case - the classes of that time)
+        ns.pop("__eq__", None)
+        ns.pop("__hash__", None)
+        if eq == "identity":
+            ns.update({"__eq__": lambda s, o: s is o, "__hash__": None})
+        elif eq == "uncomparable":
+            def _eq(s, o):
+                raise Uncomparable("The truth value of an array with more than one element is ambiguous")
+            ns.update({"__eq__": _eq, "__hash__": None})
+        elif eq != "inherited":
+            raise ValueError("no equality kind %r" % (eq,))
     K = type("V17" + fam, (Base,), ns)
     return K, state
 
@@ -180,7 +204,9 @@ class CHECK(Check):
             "file of the same file class with n+3 elements / with 1 element was written there through the framework, or the caller "
             "stored bytes there (37 more than / as many as the new output) - what the path held before is no part of the output. "
             "builtins.open and the adapter's StringIO/BytesIO are wrapped to record every handle the framework opens and its "
-            "closed flag after the call; observed: identity of the exception at the call site, handles opened/closed, "
+            "closed flag after the call; every case with one kind of equality of the user's element class, in rotation: __eq__ defined as "
+            "identity / not defined (read and write only: the base class's __eq__ - Block and Section raise NotImplementedError) / "
+            "defined and raising (data that cannot be compared with ==); observed: identity of the exception at the call site, handles opened/closed, "
             "buffer.closed (inside the caller's except block, on return, and again after the caller has dropped the exception and the "
             "file object and a gc.collect() has run) / tell() / contents (for a caller-opened file: the bytes on disk after the caller's "
             "own flush), bytes on disk after a failed write. non-trivial = a fault is injected; distinct = hash")
@@ -188,6 +214,13 @@ class CHECK(Check):
     not_exhibited = ["descriptor-level release by the OS (Python-level closed flags are observed)"]
 
     def gen(self, tier, rng):
+        # every case with one kind of element-class equality, in rotation (the start drawn)
+        turn_e = rng.randrange(len(EQ_KINDS))
+        for case in self._gen(tier, rng):
+            turn_e += 1
+            yield dict(case, eq=EQ_KINDS[turn_e % len(EQ_KINDS)])
+
+    def _gen(self, tier, rng):
         ns = (1, 2, 3, 5, 8) if tier == "quick" else range(1, 9)
         turn_p = rng.randrange(4)
         for fam in families.FAMILIES:
@@ -267,7 +300,7 @@ class CHECK(Check):
         excs = [t("injected %d" % i) for i, t in enumerate(EXC_TYPES)] + [t() for t in EXC_TYPES]   # with and without arguments
         prior = case.get("prior") if not case["read"] and not case["buffer"] else None
         before = prior_behs(prior[1]) if prior and prior[0] == "written" else []
-        K, state = make_elements(fam, binary, before + case["behs"], excs, "r" if case["read"] else "w")
+        K, state = make_elements(fam, binary, before + case["behs"], excs, "r" if case["read"] else "w", case.get("eq"))
         n = len(case["behs"])
         attr = F["list_attr"]
         ns = {"STORAGE": "BINARY" if binary else "TEXT", "__slots__": [], attr: [K] * (n if fam == "section" else 1)}
@@ -416,6 +449,7 @@ class CHECK(Check):
         d = {"fam_" + case["fam"]: 1, "binary" if case["binary"] else "text": 1, "read" if case["read"] else "write": 1,
              "buffer" if case["buffer"] else "path": 1, "n_%d" % len(case["behs"]): 1,
              "fault_at_%s" % ("none" if k is None else k): 1}
+        d["element_eq_" + case.get("eq", "as_before_the_kind_was_recorded")] = 1
         if case["buffer"] and not case["read"]:
             d["caller_dest_" + case.get("dest", "by_parity")] = 1
         if not case["buffer"] and not case["read"]:
